@@ -53,6 +53,7 @@ func c01build() {
 				add("Chmod/"+sit, setup, fsx.Step{K: "Chmod", P: t, Perm: m}, fsx.Step{K: "Stat", P: t})
 			}
 			add("Chtimes/"+sit, setup, fsx.Step{K: "Chtimes", P: t, MTime: 1234567890}, fsx.Step{K: "Stat", P: t})
+			add("Chtimes-zero-atime/"+sit, setup, fsx.Step{K: "Chtimes", P: t, MTime: 1234567891, N: 1}, fsx.Step{K: "Stat", P: t})
 			add("Stat/"+sit, setup, fsx.Step{K: "Stat", P: t})
 			add("ReadDir/"+sit, setup, fsx.Step{K: "ReadDir", P: t})
 			add("ReadFile/"+sit, setup, fsx.Step{K: "ReadFile", P: t})
@@ -82,6 +83,26 @@ func c01build() {
 			add("Rename-grandchild-onto-ancestor", s, fsx.Step{K: "Rename", P: "a/b/c", P2: "a"})
 			add("Rename-dir-keeps-subtree", s, fsx.Step{K: "Rename", P: "a", P2: "c"}, fsx.Step{K: "ReadFile", P: "c/b/c"}, fsx.Step{K: "Rename", P: "c/b", P2: "ab"}, fsx.Step{K: "ReadDir", P: "."})
 			add("Rename-lookalike-sibling", append(s, fsx.Step{K: "WriteFullFile", P: "ab", Data: "look", Perm: 0o644}), fsx.Step{K: "Rename", P: "a", P2: "b"}, fsx.Step{K: "ReadFile", P: "ab"})
+			// a directory moved into a directory whose name merely starts with the same characters
+			add("Rename-into-lookalike-dir", append(s, fsx.Step{K: "Mkdir", P: "ab", Perm: 0o755}, fsx.Step{K: "Mkdir", P: "ab/c", Perm: 0o755}), fsx.Step{K: "Rename", P: "a", P2: "ab/b"}, fsx.Step{K: "ReadFile", P: "ab/b/b/c"}, fsx.Step{K: "Rename", P: "ab/c", P2: "ab/b/c"})
+			// the parent goes away (renamed, removed) between two calls of the same kind below it: nothing remembered from the
+			// first call may answer for the second
+			for _, gone := range [][]fsx.Step{{{K: "Rename", P: "a", P2: "c"}}, {{K: "RemoveAll", P: "a"}}, {{K: "RemoveAll", P: "a"}, {K: "WriteFullFile", P: "a", Data: "now a file", Perm: 0o644}}} {
+				for _, pair := range [][2]fsx.Step{
+					{{K: "Mkdir", P: "a/ab", Perm: 0o755}, {K: "Mkdir", P: "a/.a", Perm: 0o755}},
+					{{K: "MkdirAll", P: "a/ab/c", Perm: 0o755}, {K: "MkdirAll", P: "a/ab/b", Perm: 0o755}},
+					{{K: "WriteFullFile", P: "a/ab", Data: "1", Perm: 0o644}, {K: "WriteFullFile", P: "a/.a", Data: "2", Perm: 0o644}},
+					{{K: "OpenClose", P: "a/ab", Flag: os.O_RDWR | os.O_CREATE, Perm: 0o644, Data: "1"}, {K: "OpenClose", P: "a/.a", Flag: os.O_RDWR | os.O_CREATE | os.O_EXCL, Perm: 0o644, Data: "2"}},
+					{{K: "Stat", P: "a/b"}, {K: "Stat", P: "a/b"}},
+					{{K: "ReadDir", P: "a/b"}, {K: "ReadDir", P: "a/b"}},
+					{{K: "Chmod", P: "a/b", Perm: 0o700}, {K: "Chmod", P: "a/b", Perm: 0o755}},
+					{{K: "Rename", P: "a/b/c", P2: "a/ab"}, {K: "Rename", P: "a/ab", P2: "a/b/c"}},
+				} {
+					h := append(append([]fsx.Step(nil), s...), pair[0])
+					h = append(h, gone...)
+					add("parent-gone/"+gone[len(gone)-1].K+"/"+pair[0].K, h, pair[1], fsx.Step{K: "Stat", P: "a"}, fsx.Step{K: "ReadDir", P: "."})
+				}
+			}
 			add("Remove-lookalike-sibling", append(s, fsx.Step{K: "Mkdir", P: "ab", Perm: 0o755}, fsx.Step{K: "WriteFullFile", P: "ab/c", Data: "look", Perm: 0o644}), fsx.Step{K: "RemoveAll", P: "a"}, fsx.Step{K: "ReadFile", P: "ab/c"}, fsx.Step{K: "Remove", P: "ab"})
 		}
 	})
